@@ -67,6 +67,10 @@ def _truth_tested_names(fn):
         elif isinstance(e, ast.UnaryOp) and isinstance(e.op, ast.Not):
             mark(e.operand)
     for n in ast.walk(fn):
+        if isinstance(n, ast.BoolOp):
+            for v in n.values:
+                v._parent_bool = n          # `x > 0 and elapsed > x`: a guard that switches the number off at 0
+    for n in ast.walk(fn):
         if isinstance(n, (ast.If, ast.While, ast.IfExp, ast.Assert)):
             mark(n.test)
         elif isinstance(n, ast.comprehension):
@@ -87,6 +91,16 @@ def _truth_tested_names(fn):
             # `x != 0` / `x == 0` single the legal value 0 out exactly as the truth test does
             mark(n.left)
             mark(n.comparators[0])
+        elif isinstance(n, ast.Compare) and len(n.ops) == 1 and isinstance(n.ops[0], (ast.Gt, ast.Lt, ast.GtE, ast.LtE)) and \
+                any(isinstance(x, ast.Constant) and not isinstance(x.value, bool) and isinstance(x.value, (int, float)) and x.value == 0
+                    for x in (n.left, n.comparators[0])) and isinstance(getattr(n, "_parent_bool", None), ast.BoolOp):
+            mark(n.left)
+            mark(n.comparators[0])
+        elif isinstance(n, ast.Compare) and len(n.ops) == 1 and isinstance(n.ops[0], (ast.In, ast.NotIn)) \
+                and isinstance(n.comparators[0], (ast.Tuple, ast.List, ast.Set)) \
+                and any(isinstance(x, ast.Constant) and not isinstance(x.value, bool) and isinstance(x.value, (int, float)) and x.value == 0
+                        for x in n.comparators[0].elts):
+            mark(n.left)            # `x not in (None, 0)`
         elif isinstance(n, ast.Call) and (call_name(n) or "") in ("any", "all") and len(n.args) == 1 \
                 and isinstance(n.args[0], (ast.GeneratorExp, ast.ListComp)) and len(n.args[0].generators) == 1 \
                 and isinstance(n.args[0].generators[0].iter, (ast.Tuple, ast.List, ast.Set)) \
